@@ -3,6 +3,7 @@ generation.  The line searches of the later generations (scipy's brent) are nume
 reach: those generations are decided by the bounded layer (rtc/c01-c04, c08 reference runs)."""
 import z3
 from pyvc.contract import contract
+from contracts._shared import save_probe, check_dump_after_record
 from pyvc.values import PathEnd
 
 SO = 'mystic/scipy_optimize.py'
@@ -10,6 +11,7 @@ AS = 'mystic/abstract_solver.py'
 MONF = 'mystic/monitors.py'
 MON = MONF + '::Monitor'
 PW = SO + '::PowellDirectionalSolver'
+XTOL, IMAX = 2e-3, 7          # non-default line-search settings (defaults: 1e-4, 500)
 
 
 def _powell(h, nrec, stop_after_bootstrap=False):
@@ -48,7 +50,7 @@ def _powell(h, nrec, stop_after_bootstrap=False):
         return None
     h.set_summaries({(SO, 'PowellDirectionalSolver._process_inputs'): process_inputs,
                      (AS, 'AbstractSolver._bootstrap_objective'): bootstrap,
-                     (AS, 'AbstractSolver.__save_state'): lambda I, c, a, k: None,
+                     (AS, 'AbstractSolver.__save_state'): save_probe,
                      ('mystic/constraints.py', 'and_'): lambda I, c, a, k: cons,
                      (MONF, 'Monitor.__call__'): mon_call})
     return s, D, x0, cons, cost, maxiter
@@ -122,7 +124,7 @@ def _powell_iteration(h, later):
     stepmon = h.obj(MON, _x=h.clist([0.0] * nrec), _y=h.clist([3.0, 2.0, 1.0][:nrec]), _id=h.clist([]), _info=h.clist([]), k=None, _npts=None, label='s')
     s = h.obj(PW, nDim=N, nPop=1, population=h.clist([xa]), popEnergy=h.clist([fval]), _bestSolution=None, _bestEnergy=None,
               _stepmon=stepmon, _useStrictRange=False, _constraints=cons, _strictbounds=cons, _direc=direc,
-              xtol=1e-4, imax=500, id=None, _termination=h.fn('TERMINATION', ret='bool'), _maxiter=100,
+              xtol=XTOL, imax=IMAX, id=None, _termination=h.fn('TERMINATION', ret='bool'), _maxiter=100,
               _energy_history=h.clist([3.0, 2.0, 1.0]) if later else None, _solution_history=None,
               _PowellDirectionalSolver__internals=h.clist([x1a, fx, bigind, delta]))
     order = {'processed': False}
@@ -140,17 +142,24 @@ def _powell_iteration(h, later):
         I.st.ghost.setdefault('records', []).append((Mo.snapshot(I, args[1]), args[2]))
         return None
 
+    ls_settings = []
+
     def linesearch(I, c, args, kwargs):
         func, p, xi = args[0], args[1], args[2]
+        ls_settings.append((kwargs.get('tol', args[3] if len(args) > 3 else 'default'), kwargs.get('maxiter', args[4] if len(args) > 4 else 'default')))
         a = I.call(alpha, [p, xi], {})
         step = I.binop(__import__('ast').Mult(), xi, a)
         q = I.binop(__import__('ast').Add(), p, step)
         return (I.call(func, [q], {}), q, step)
     h.set_summaries({(SO, 'PowellDirectionalSolver._process_inputs'): process_inputs,
                      (AS, 'AbstractSolver._bootstrap_objective'): bootstrap,
-                     (AS, 'AbstractSolver.__save_state'): lambda I, c, a, k: None,
+                     (AS, 'AbstractSolver.__save_state'): save_probe,
                      (SO, '_linesearch_powell'): linesearch, (MONF, 'Monitor.__call__'): mon_call})
     h.call(h.getattr(s, '_Step'))
+    # "given the same Brent line search": every line search of the iteration runs with the solver's configured
+    # tolerance (xtol * 100) and iteration cap (imax), non-default values here
+    h.check('C08/every-line-search-uses-the-configured-tolerance-and-iteration-cap', 'ok',
+            ok=(len(ls_settings) >= N and all(mi == IMAX and isinstance(t, float) and abs(t - XTOL * 100) < 1e-15 for t, mi in ls_settings)))
 
     # ------------------------------------------------------------------ the textbook iteration on scalars
     V = lambda items: h.clist(list(items), nd=True)                                  # noqa: E731
